@@ -66,6 +66,22 @@ fn scenes(m: Method, backward: bool) -> Vec<Scene> {
         sc.cfg.stiff_test = Some(1);
         v.push(sc);
     }
+    // the PI controller's memory (builder option beta > 0; the default 0 switches it off): an answer that leaves
+    // the state untouched must leave the controller untouched as well
+    if m == Method::DOPRI5 || m == Method::DOP853 {
+        let mut sc = mk(base(Base::Logistic(2.0)), 1.5, 1e-5, 1e-8, false);
+        sc.cfg.beta = Some(0.08);
+        v.push(sc);
+    }
+    // Radau with two Newton sweeps at most (builder option newton_maxiter): attempts are abandoned and retried
+    // all the time, also the one that was clamped to xend
+    if m == Method::RADAU {
+        for span in [1.0, 1.37] {
+            let mut sc = mk(base(Base::Logistic(2.0)), span, 1e-5, 1e-8, false);
+            sc.cfg.newton_maxiter = Some(2);
+            v.push(sc);
+        }
+    }
     // dense output switched off at the builder: the same protocol without the interpolant
     if m != Method::BDF {
         let mut sc = mk(base(Base::Harmonic(2.0)), 1.5, 1e-5, 1e-8, false);
@@ -195,8 +211,12 @@ fn check_run(key: &str, m: Method, sc: &Scene, script: &[(usize, Ans)], base_run
             }
         }
         None => {
+            // (with at most two Newton sweeps Radau may honestly give up on a state the callback has scaled)
+            let may_give_up = c.newton_maxiter.is_some() && !script.is_empty() && matches!(ir.status, Status::SingularMatrix | Status::StepSizeTooSmall);
             if ir.status != Status::Success {
-                viol!("status", format!("no Interrupt but status {:?}", ir.status));
+                if !may_give_up {
+                    viol!("status", format!("no Interrupt but status {:?}", ir.status));
+                }
             } else {
                 let last = recs.last().unwrap().x;
                 if (last - c.xend).abs() > time_slack(c.x0, c.xend, last, recs.len()) {
